@@ -112,12 +112,12 @@ def main(tier, seed, replay=None):
                 break
             claripy.backends.z3.reuse_z3_solver = reuse
             try:
-                fail = solverhist.run_histories(claripy, drv, rng, facs, 120 if tier == "quick" else 4000, 14, report=rep,
+                fail = solverhist.run_histories(claripy, drv, rng, facs, 300 if tier == "quick" else 4000, 14, report=rep,
                                                 tag="c11r%d" % int(reuse))
-                stats["histories(reuse=%s)" % reuse] += 120 if tier == "quick" else 4000
+                stats["histories(reuse=%s)" % reuse] += 300 if tier == "quick" else 4000
                 if not fail:
-                    fail = solverhist.cache_scenarios(claripy, drv, rng, facs, 60 if tier == "quick" else 2000, report=rep)
-                    stats["cache_scenarios(reuse=%s)" % reuse] += 60 if tier == "quick" else 2000
+                    fail = solverhist.cache_scenarios(claripy, drv, rng, facs, 120 if tier == "quick" else 2000, report=rep)
+                    stats["cache_scenarios(reuse=%s)" % reuse] += 120 if tier == "quick" else 2000
             finally:
                 claripy.backends.z3.reuse_z3_solver = False
     rep.cov["rule"] = ("(1) BackendZ3.max/min/eval on random constraint sets over x,y:BV4 z:BV3 b:Bool against the extracted search loops "
